@@ -323,6 +323,62 @@ let serial_case toks =
        | _ -> "badop # badop")
   | _ -> "badcase"
 
+(* ------------------------------------------------------------------ C14: copy-on-write handles *)
+let polyp_case_line (line : string) =
+  let w = 32 and n = 8 in
+  let wz = czi w in
+  let (p, pn, g, ik) = row w 0 in
+  let kmaxn = kmax_of w in
+  let k0 = nat_of_int 2 in
+  let hN = 3 in
+  let st = ref (M.init : M.z list M.st) in
+  let sp = ref (fun (_ : M.nat) -> (None : M.z list option)) in
+  let mb = Buffer.create 256 and sb = Buffer.create 256 in
+  let apply o = st := M.step !st o; sp := M.spec_step !sp o in
+  let value h = (match M.abs !st (nat_of_int h) with Some v -> v | None -> failwith "empty handle") in
+  let const_poly v = List.init n (fun i -> if i = 0 then zmod (czi v) p else czi 0) in
+  let snapshot () =
+    let cls = Hashtbl.create 7 in
+    for h = 0 to hN - 1 do
+      (match M.hs !st (nat_of_int h), M.abs !st (nat_of_int h) with
+       | Some c, Some v ->
+           let ci = int_of_nat c in
+           if not (Hashtbl.mem cls ci) then Hashtbl.add cls ci (Hashtbl.length cls);
+           Buffer.add_string mb (Printf.sprintf " %d:%s" (Hashtbl.find cls ci) (String.concat "," (List.map str v)))
+       | _ -> Buffer.add_string mb " -");
+      (match !sp (nat_of_int h) with
+       | Some v -> Buffer.add_string sb (Printf.sprintf " %s" (String.concat "," (List.map str v)))
+       | None -> Buffer.add_string sb " -")
+    done;
+    Buffer.add_string mb " |"; Buffer.add_string sb " |" in
+  let ops = List.filter (fun s -> String.trim s <> "") (String.split_on_char ';' line) in
+  List.iter (fun tok ->
+      let t = List.filter (fun s -> s <> "") (String.split_on_char ' ' (String.trim tok)) in
+      let i x = int_of_string x in
+      let nat x = nat_of_int (i x) in
+      (match t with
+       | [ "create"; h; v ] -> apply (M.Create (nat h, const_poly (i v)))
+       | [ "createl"; h; v ] -> apply (M.Create (nat h, List.init n (fun j -> if j < 3 then zmod (czi (i v + j)) p else czi 0)))
+       | [ ("copyc" | "copyn" | "copya"); h; g ] -> apply (M.Copy (nat h, nat g))
+       | [ ("movec" | "movea"); h; g ] -> apply (M.Move (nat h, nat g))
+       | [ "write"; h; k; v ] -> apply (M.Write (nat h, fun old -> List.mapi (fun j x -> if j = i k then czi (i v) else x) old))
+       | [ "read"; _; _ ] -> ()
+       | [ "setu"; h; v ] -> apply (M.Write (nat h, fun _ -> const_poly (i v)))
+       | [ "setl"; h; v ] -> apply (M.Write (nat h, fun _ -> List.init n (fun j -> if j < 2 then zmod (czi (i v + j)) p else czi 0)))
+       | [ "ntt"; h ] -> apply (M.Write (nat h, fun old -> M.ntt_fwd wz p g kmaxn k0 old))
+       | [ "intt"; h ] -> apply (M.Write (nat h, fun old -> M.ntt_inv wz p g ik kmaxn k0 old))
+       | [ "add"; h; g1; g2 ] -> let a = value (i g1) and b = value (i g2) in apply (M.Write (nat h, fun _ -> List.map2 (fun x y -> M.addmod wz p x y) a b))
+       | [ "mul"; h; g1; g2 ] -> let a = value (i g1) and b = value (i g2) in apply (M.Write (nat h, fun _ -> List.map2 (fun x y -> M.mulmod_gen wz p x y) a b))
+       | [ "cmp"; h; g ] ->
+           let a = value (i h) and b = value (i g) in
+           let e = List.for_all2 (fun x y -> Z.equal (zz_of_cz x) (zz_of_cz y)) a b in
+           let s = Printf.sprintf " eq=%d,ne=%d" (if e then 1 else 0) (if e then 0 else 1) in
+           Buffer.add_string mb s; Buffer.add_string sb s
+       | [ "destroy"; h ] -> apply (M.Destroy (nat h))
+       | _ -> Buffer.add_string mb " badop");
+      ignore pn; snapshot ()) ops;
+  Buffer.contents mb ^ " # " ^ Buffer.contents sb
+
 let dispatch : (string * (string list -> string)) list ref = ref [ ("ops", ops_case); ("ntt", ntt_case); ("expr", expr_case); ("crt", crt_case); ("set", set_case); ("serial", serial_case) ]
 
 let () =
@@ -334,7 +390,7 @@ let () =
        let line = input_line stdin in
        let toks = List.filter (fun s -> s <> "") (String.split_on_char ' ' (String.trim line)) in
        if toks <> [] then begin
-         Buffer.add_string buf (try f toks with e -> "exn:" ^ Printexc.to_string e);
+         Buffer.add_string buf (try (if family = "polyp" then polyp_case_line line else f toks) with e -> "exn:" ^ Printexc.to_string e);
          Buffer.add_char buf '\n'
        end
      done
